@@ -1,26 +1,38 @@
 package main
 
+// Native replay of counterexamples: the solver's assignment is written to a
+// replay file, the harness is compiled natively together with the real code
+// (go test -overlay) and run with the nondeterministic primitives reading
+// that file. Only a reproduced failure is reported as a violation.
+
 import (
 	"encoding/json"
 	"fmt"
 	"os"
+	"os/exec"
 	"path/filepath"
+	"sort"
 	"strings"
+	"time"
 )
 
 type replayFile struct {
 	Property string            `json:"property"`
 	Harness  string            `json:"harness"`
 	Package  string            `json:"package"`
+	PkgDir   string            `json:"pkgdir"`
 	Kind     string            `json:"kind"`
 	Label    string            `json:"label"`
 	Detail   string            `json:"detail"`
+	Tier     string            `json:"tier"`
 	Values   map[string]uint64 `json:"values"`
 	Path     []int             `json:"path"`
+	Native   string            `json:"native_result,omitempty"`
 }
 
 func (e *Engine) writeReplay(prop string, v *Violation) (string, bool) {
-	rf := replayFile{Property: prop, Harness: v.Harness, Kind: v.Kind, Label: v.Label, Detail: v.Detail, Values: map[string]uint64{}, Path: v.Path}
+	rf := replayFile{Property: prop, Harness: v.Harness, Kind: v.Kind, Label: v.Label, Detail: v.Detail, Tier: e.tier,
+		Values: map[string]uint64{}, Path: v.Path, Package: v.Pkg, PkgDir: v.PkgDir}
 	if v.Model != nil {
 		for k, x := range v.Model.vars {
 			rf.Values[k] = x
@@ -31,6 +43,9 @@ func (e *Engine) writeReplay(prop string, v *Violation) (string, bool) {
 			}
 		}
 	}
+	for k, x := range v.Choices {
+		rf.Values[k] = x
+	}
 	dir := filepath.Join(e.verifDir, "replays")
 	os.MkdirAll(dir, 0o755)
 	name := strings.NewReplacer("/", "_", ":", "_", " ", "_", "|", "_").Replace(fmt.Sprintf("%s_%s_%s_%s", prop, v.Harness, v.Kind, v.Label))
@@ -38,12 +53,210 @@ func (e *Engine) writeReplay(prop string, v *Violation) (string, bool) {
 		name = name[:120]
 	}
 	p := filepath.Join(dir, name+".json")
+	if v.Kind == "alloc" {
+		// an input-controlled allocation above 1 GiB is not executed natively (it would exhaust memory); reported as is
+		rf.Native = "not run (allocation-size obligation)"
+		b, _ := json.MarshalIndent(rf, "", " ")
+		os.WriteFile(p, b, 0o644)
+		return p, true
+	}
 	b, _ := json.MarshalIndent(rf, "", " ")
 	os.WriteFile(p, b, 0o644)
-	return p, true
+	res, out := e.runNative(&rf, p)
+	rf.Native = res
+	b, _ = json.MarshalIndent(rf, "", " ")
+	os.WriteFile(p, b, 0o644)
+	ok := nativeMatches(&rf, res)
+	if !ok {
+		fmt.Fprintf(os.Stderr, "native replay of %s: %q (expected %s %s)\n%s\n", p, res, rf.Kind, rf.Label, tail(out, 30))
+	}
+	return p, ok
+}
+
+func tail(s string, n int) string {
+	ls := strings.Split(strings.TrimRight(s, "\n"), "\n")
+	if len(ls) > n {
+		ls = ls[len(ls)-n:]
+	}
+	return strings.Join(ls, "\n")
+}
+
+func nativeMatches(rf *replayFile, res string) bool {
+	switch rf.Kind {
+	case "assert":
+		if !strings.HasPrefix(res, "assert-fail ") {
+			return false
+		}
+		for _, l := range strings.Split(strings.TrimPrefix(res, "assert-fail "), ",") {
+			if l == rf.Label {
+				return true
+			}
+		}
+		return false
+	default:
+		return strings.HasPrefix(res, "panic ")
+	}
+}
+
+// harnessNames lists the Verif* harness functions of a package directory (from the overlay sources).
+func (e *Engine) harnessNames(pkgDir string) []string {
+	var names []string
+	for p, src := range e.overlay {
+		if filepath.Dir(p) != pkgDir || !strings.Contains(filepath.Base(p), "zz_verif_") || strings.HasSuffix(p, "_test.go") {
+			continue
+		}
+		for _, line := range strings.Split(string(src), "\n") {
+			if strings.HasPrefix(line, "func Verif") {
+				n := strings.TrimPrefix(line, "func ")
+				if i := strings.Index(n, "("); i > 0 {
+					names = append(names, n[:i])
+				}
+			}
+		}
+	}
+	sort.Strings(names)
+	return names
+}
+
+func (e *Engine) runNative(rf *replayFile, replayPath string) (string, string) {
+	if e.overlay == nil {
+		if err := e.readOverlay(); err != nil {
+			return "error: " + err.Error(), ""
+		}
+	}
+	tmp, err := os.MkdirTemp("", "symgo-replay-")
+	if err != nil {
+		return "error: " + err.Error(), ""
+	}
+	defer os.RemoveAll(tmp)
+	pkgDir := rf.PkgDir
+	pkgName := rf.Package
+	var sb strings.Builder
+	sb.WriteString("//go:build verif\n\npackage " + pkgName + "\n\nimport (\n\t\"fmt\"\n\t\"os\"\n\t\"strings\"\n\t\"testing\"\n\n\t\"" + e.modPathOrDefault() + "/internal/verifrt\"\n)\n\n")
+	sb.WriteString("func TestVerifReplay(t *testing.T) {\n\tfns := map[string]func(){\n")
+	for _, n := range e.harnessNames(pkgDir) {
+		fmt.Fprintf(&sb, "\t\t%q: %s,\n", n, n)
+	}
+	sb.WriteString(`	}
+	h, err := verifrt.Load(os.Getenv("VERIF_REPLAY_FILE"))
+	if err != nil {
+		t.Fatal(err)
+	}
+	f := fns[h]
+	if f == nil {
+		t.Fatal("unknown harness " + h)
+	}
+	defer func() {
+		if r := recover(); r != nil {
+			if _, ok := r.(verifrt.AssumeFailed); ok {
+				fmt.Println("REPLAY-RESULT: assume-failed")
+				return
+			}
+			fmt.Printf("REPLAY-RESULT: panic %v\n", r)
+			return
+		}
+		if len(verifrt.Failures) > 0 {
+			fmt.Println("REPLAY-RESULT: assert-fail " + strings.Join(verifrt.Failures, ","))
+			return
+		}
+		fmt.Println("REPLAY-RESULT: ok")
+	}()
+	f()
+}
+`)
+	testFile := filepath.Join(tmp, "zz_verif_replay_test.go")
+	os.WriteFile(testFile, []byte(sb.String()), 0o644)
+	ov := map[string]map[string]string{"Replace": {}}
+	i := 0
+	for p, src := range e.overlay {
+		f := filepath.Join(tmp, fmt.Sprintf("ov%d.go", i))
+		i++
+		os.WriteFile(f, src, 0o644)
+		ov["Replace"][p] = f
+	}
+	ov["Replace"][filepath.Join(pkgDir, "zz_verif_replay_test.go")] = testFile
+	ob, _ := json.Marshal(ov)
+	ovPath := filepath.Join(tmp, "overlay.json")
+	os.WriteFile(ovPath, ob, 0o644)
+	rel, _ := filepath.Rel(e.repoDir, pkgDir)
+	cmd := exec.Command("go", "test", "-tags", "verif", "-vet=off", "-count=1", "-v", "-run", "^TestVerifReplay$", "-overlay", ovPath, "./"+rel)
+	cmd.Dir = e.repoDir
+	cmd.Env = append(os.Environ(), "GOFLAGS=-mod=mod", "GOPROXY=off", "GOSUMDB=off", "GOTOOLCHAIN=local",
+		"VERIF_REPLAY_FILE="+replayPath, "VERIF_TIER="+rf.Tier)
+	done := make(chan struct{})
+	var out []byte
+	go func() { out, _ = cmd.CombinedOutput(); close(done) }()
+	select {
+	case <-done:
+	case <-time.After(5 * time.Minute):
+		if cmd.Process != nil {
+			cmd.Process.Kill()
+		}
+		<-done
+		return "timeout", string(out)
+	}
+	for _, l := range strings.Split(string(out), "\n") {
+		if strings.HasPrefix(l, "REPLAY-RESULT: ") {
+			return strings.TrimPrefix(l, "REPLAY-RESULT: "), string(out)
+		}
+	}
+	if strings.Contains(string(out), "panic:") || strings.Contains(string(out), "fatal error:") {
+		return "panic (process) " + firstLineWith(string(out), "panic:", "fatal error:"), string(out)
+	}
+	return "error: no result", string(out)
+}
+
+func firstLineWith(s string, subs ...string) string {
+	for _, l := range strings.Split(s, "\n") {
+		for _, sub := range subs {
+			if strings.Contains(l, sub) {
+				return l
+			}
+		}
+	}
+	return ""
+}
+
+func (e *Engine) modPathOrDefault() string {
+	if e.modPath != "" {
+		return e.modPath
+	}
+	b, err := os.ReadFile(filepath.Join(e.repoDir, "go.mod"))
+	if err == nil {
+		for _, l := range strings.Split(string(b), "\n") {
+			if strings.HasPrefix(l, "module ") {
+				return strings.TrimSpace(strings.TrimPrefix(l, "module "))
+			}
+		}
+	}
+	return "github.com/xakep666/ps3netsrv-go"
 }
 
 func cmdReplay(args []string) int {
-	fmt.Println("replay: not implemented yet")
-	return 3
+	if len(args) < 1 {
+		usage()
+	}
+	e := newEngine()
+	b, err := os.ReadFile(args[0])
+	if err != nil {
+		fmt.Fprintln(os.Stderr, err)
+		return 3
+	}
+	var rf replayFile
+	if err := json.Unmarshal(b, &rf); err != nil {
+		fmt.Fprintln(os.Stderr, err)
+		return 3
+	}
+	if rf.Kind == "alloc" {
+		fmt.Println("replay: allocation-size obligation; not executed natively:", rf.Detail)
+		return 1
+	}
+	res, out := e.runNative(&rf, args[0])
+	fmt.Println("native result:", res)
+	if nativeMatches(&rf, res) {
+		fmt.Printf("VIOLATION property=%s replay=%s\n", rf.Property, args[0])
+		return 1
+	}
+	fmt.Println(tail(out, 20))
+	return 0
 }
